@@ -35,6 +35,11 @@
 //     when the discriminant is not clearly signed, in the along/edge regimes for the far root
 //     (documented to be dropped), and for cylinders when 1 - u_T^2 is not clearly >= 1e-10.
 //
+//   * state on: the start point's own root is never reported.  At most one distance comes back and
+//     it equals the other root -2 hb / a within KT eps (2 hbm/|a| + 2|hb| am/a^2) + 8 eps |d|
+//     (nothing for planes, for |a| below the along-surface threshold, for axis-parallel cylinder
+//     rays); signature <type>:on-surface-self-hit.
+//
 // API contract respected: SurfaceState::on is passed exactly for points that are on the surface
 // to rounding; SurfaceState::off only for clearly-off points; directions are unit vectors to
 // 1 ulp; constructor preconditions (radius > 0, unit normals, tangent > 0, involute parameter
